@@ -165,6 +165,9 @@ func verifStoreOf(f *fileStore) *VerifStore {
 	return nil
 }
 
+// VerifSetCacheCap changes the page-cache capacity given to stores created from now on (0 = the real value).
+func VerifSetCacheCap(n int) { verifCacheCap = n }
+
 // VerifOnWrite sets the write-event callback (nil to clear).
 func VerifOnWrite(f func(VerifWrite)) { verifOnWrite = f }
 
